@@ -10,6 +10,12 @@
     op   L4 S"call"   L<k> S<segment>.. L<args> M<kwargs>                 proxy.<path>(*args, **kwargs)
          L4 S"notify" L<k> S<segment>.. L<args> M<kwargs>                 proxy._notify.<path>(*args, **kwargs)
          L2 S"batch"  L<j> (L4 <notify: T|F> L<k> S<segment>.. L<args> M<kwargs>)..    MultiCall
+         L2 S"script" L<n> <step>..      a program over KEPT helper objects (variables live until the end of the line):
+              step = L2 S"mc" S<dst>                               dst = MultiCall(proxy, config=mcfg)
+                     L4 S"get" S<dst> S<src> S<name>               dst = getattr(src, name)     ("proxy" is predefined)
+                     L5 S"call" S<dst> S<src> L<args> M<kwargs>    src(*args, **kwargs)         (result not kept)
+              the op's outcome is that of its last step, or the exception of the first step that raises; calling
+              a `_Method` gives its value, a `MultiCallMethod` gives N, a `MultiCall` the batch value
   The ops run in order on one proxy and one History; request `n` (counting every `dumps`) draws the id
   `fresh#n`.
 
@@ -119,11 +125,59 @@ structure St where
   history : History := {}
   next : Nat := 0
   out : List PyVal := []
+  heap : Heap := {}
+  env : List (String × Ref) := [("proxy", .proxy)]
 
 def historyVal (h : History) : PyVal :=
   .tuple [.list (h.requests.map PyVal.str), .list (h.responses.map PyVal.str)]
 
 def freshId (n : Nat) : String := "fresh#" ++ toString n
+
+/-- Appends the record of an op: its outcome and the server's effects. -/
+def St.record (st : St) (value : PyM PyVal) (effects : List Effect) : St :=
+  { st with out := st.out ++ [.tuple [outcomeVal value, .list (effects.map effectVal)]] }
+
+/-- One step of a script.  `some (st', outcome, effects)`; `none` for an ill-formed step. -/
+def runStep (c : Proxy) (m : McConfig) (p : Peer) (st : St) : PyVal → Option (St × PyM PyVal × List Effect)
+  | .list [.str "mc", .str dst] =>
+    let (r, hp) := st.heap.newMulticall
+    some ({ st with heap := hp, env := (dst, r) :: st.env }, .ok .none, [])
+  | .list [.str "get", .str dst, .str src, .str name] =>
+    match st.env.lookup src with
+    | Option.none => some (st, raise "Unmodelled" (.str "unbound variable"), [])
+    | some r =>
+      match getAttr st.heap r name with
+      | .error e => some (st, .error e, [])
+      | .ok (r', hp) => some ({ st with heap := hp, env := (dst, r') :: st.env }, .ok .none, [])
+  | .list [.str "call", .str _, .str src, .list args, .dict kwargs] =>
+    match st.env.lookup src with
+    | Option.none => some (st, raise "Unmodelled" (.str "unbound variable"), [])
+    | some (.method i) =>
+      let r := callMethod tokenCodec c p st.history (freshId st.next) st.heap i args kwargs
+      some ({ st with history := r.history, next := st.next + 1 }, r.value, r.effects)
+    | some (.job k) =>
+      match callJob st.heap k args kwargs with
+      | .error e => some (st, .error e, [])
+      | .ok hp => some ({ st with heap := hp }, .ok .none, [])
+    | some (.multicall i) =>
+      if !args.isEmpty || !kwargs.isEmpty then some (st, raise "Unmodelled" (.str "MultiCall called with arguments"), [])
+      else
+        let n := (st.heap.jobsOf i).elim 0 List.length
+        let (r, hp) := callMulticall tokenCodec c m p st.history (fun i => freshId (st.next + i)) st.heap i
+        some ({ st with history := r.history, next := st.next + n, heap := hp }, r.value.bind batchVal, r.effects)
+    | some _ => some (st, raise "Unmodelled" (.str "call of a ServerProxy / _Notify / MultiCallNotify"), [])
+  | _ => none
+
+/-- The steps of one script op: stops at the first exception; the op's record is the last outcome and all effects. -/
+def runSteps (c : Proxy) (m : McConfig) (p : Peer) (st : St) (last : PyM PyVal) (effs : List Effect) :
+    List PyVal → Option St
+  | [] => some { st with out := st.out ++ [.tuple [outcomeVal last, .list (effs.map effectVal)]] }
+  | step :: rest =>
+    match runStep c m p st step with
+    | Option.none => Option.none
+    | some (st', .error e, eff) =>
+      some { st' with out := st'.out ++ [.tuple [outcomeVal (.error e), .list ((effs ++ eff).map effectVal)]] }
+    | some (st', .ok v, eff) => runSteps c m p st' (.ok v) (effs ++ eff) rest
 
 /-- One op; `none` for an ill-formed op, `some (.error e)` when an exception escapes where the real
     program would stop building the job list (reported as the op's outcome). -/
@@ -131,21 +185,19 @@ def stepOp (c : Proxy) (m : McConfig) (p : Peer) (st : St) : PyVal → Option St
   | .list [.str "call", .list path, .list args, .dict kwargs] => do
     let path ← pathOf path
     let r := EndToEnd.call tokenCodec c p st.history (freshId st.next) path args kwargs
-    some { history := r.history, next := st.next + 1,
-           out := st.out ++ [.tuple [outcomeVal r.value, .list (r.effects.map effectVal)]] }
+    some (St.record { st with history := r.history, next := st.next + 1 } r.value r.effects)
   | .list [.str "notify", .list path, .list args, .dict kwargs] => do
     let path ← pathOf path
     let r := EndToEnd.notify tokenCodec c p st.history (freshId st.next) path args kwargs
-    some { history := r.history, next := st.next + 1,
-           out := st.out ++ [.tuple [outcomeVal r.value, .list (r.effects.map effectVal)]] }
+    some (St.record { st with history := r.history, next := st.next + 1 } r.value r.effects)
   | .list [.str "batch", .list jobs] => do
     let built ← jobs.mapM jobOf
     match built.mapM id with
     | .error e => some { st with out := st.out ++ [.tuple [outcomeVal (.error e), .list []]] }
     | .ok js =>
       let r := EndToEnd.multicall tokenCodec c m p st.history (fun i => freshId (st.next + i)) js
-      some { history := r.history, next := st.next + js.length,
-             out := st.out ++ [.tuple [outcomeVal (r.value.bind batchVal), .list (r.effects.map effectVal)]] }
+      some (St.record { st with history := r.history, next := st.next + js.length } (r.value.bind batchVal) r.effects)
+  | .list [.str "script", .list steps] => runSteps c m p st (.ok .none) [] steps
   | _ => none
 
 def runOps (c : Proxy) (m : McConfig) (p : Peer) : St → List PyVal → Option St
